@@ -328,6 +328,8 @@ class Interp:
                 self.broken('stream operation ' + fn, e, frame)
             if e.get('ck') == 'member' and e.get('fn') == 'resize':
                 return self.prim_resize(e, st, frame)
+            if e.get('ck') == 'member' and e.get('fn') in ('reserve', 'shrink_to_fit') and not e.get('calleeInRoot'):
+                return [st]   # capacity only: size() and contents are unchanged
             if e.get('ck') == 'member' and e.get('calleeInRoot'):
                 # codec call on this / base / sub-object
                 outs = []
